@@ -31,6 +31,7 @@ def iworld (im : IMap) : World M IV where
   int := .int
   str := .str
   list := .list
+  newList vs := pure (.list vs)
   tuple := .list
   global _ := throw "NameError"
   truthy
